@@ -24,10 +24,23 @@ UNITS = [
          # equal multisets: same node count, and a singleton nodelist has the same single node
          tail_proof="match self { FnArg::Test(t) => { match &**t { Test::RelQuery(v) => { lemma_ms_len(nodes(__r.data), rfc_segs(v@, seq![cur_node(cur_of(st0))], st0.root)); } "
                     "Test::AbsQuery(q) => { lemma_ms_len(nodes(__r.data), rfc_segs(q.segments@, seq![root_node(st0.root)], st0.root)); } _ => {} } } _ => {} }"),
-    Unit(name="custom", file=F, fn="custom", order=51, status="assumed", serves=["C10"],
-         why_assumed="Cow<T> arguments and the data type's extension hook (serde_json-specific set functions: C14 is not applicable)",
-         requires=[("cur", "is_cur(state)")],
-         ensures=[("def", "r.root == state.root && r.data == Data::<'a, T>::Value(custom_value::<T>(name@, args@, cur_of(state), state.root))")]),
+    Unit(name="custom", calls=['FnArg::process'], file=F, fn="custom", order=51, serves=["C10", "C14"],
+         # argument evaluation and hand-over to the data type's extension hook (C14): every argument is evaluated on the current
+         # node, a value is handed over owned, a node borrowed, nothing not at all — in written order
+         requires=[("cur", "is_cur(state)"),
+                   ("wf", "forall|i: int| 0 <= i < args@.len() ==> wf_arg(#[trigger] args@[i]) && arg_plain(args@[i])")],
+         ensures=[("def", "r.root == state.root && r.data == Data::<'a, T>::Value(custom_value::<T>(name@, args@, cur_of(state), state.root))")],
+         shapes=[("R7", 1, "{ let __f = $F; let __g = $G; let __r = vf_ref_map_flat_map_collect($X, __f, __g); proof { let __h = |i: int| if 0 <= i < args0@.len() { opt_seq(arg_value(arg_denote(args0@[i], cur_of(st0@), st0@.root))) } else { Seq::<T>::empty() }; assert forall|i: int, b: State<'a, T>, o: Vec<Cow<'a, T>>| 0 <= i < args0@.len() && #[trigger] __f.ensures((&args0@[i],), b) && #[trigger] __g.ensures((b,), o) implies cow_vals(o@) == __h(i) by { assert(arg_rel(args0@[i], st0@, b)); assert(cow_vals(o@) =~= data_vals(b.data)); assert(data_vals(b.data) =~= opt_seq(data_value(b.data))); } assert(cow_vals(__r@) == concat(Seq::new(args0@.len(), __h))); } __r }"), ("R2v", 1)],
+         body_prefix="let st0: Ghost<State<'a, T>> = Ghost(state); let ghost args0 = args;",
+         closures={
+             1: Cl(expect=".process(state.clone())", types=["&FnArg"], ret="(o: State<'a, T>)",
+                   requires=[("pre", "wf_arg(*v) && is_cur(st0@)")],
+                   ensures=[("rel", "arg_rel(*v, st0@, o)")]),
+             2: Cl(expect="vec![Cow::Owned(v)]", types=["State<'a, T>"], ret="(o: Vec<Cow<'a, T>>)",
+                   ensures=[("vals", "cow_vals(o@) =~= data_vals(v.data)")]),
+             3: Cl(expect="Cow::Borrowed(v.inner)", types=["Pointer<'a, T>"], ret="(c: Cow<'a, T>)",
+                   ensures=[("val", "cow_val(c) == *v.inner")]),
+         }),
     Unit(name="length", file=F, fn="length", order=51, serves=["C10"],
          shapes=[("Echars", 1)],
          ensures=[
